@@ -46,9 +46,11 @@ WORLDS["x4cls"] = ([("x", (4,), 0, False, "sub"), ("y", (3,), 5, False)], dict(C
 CFG_FAIL = dict(CFG_1D, views=("s1", "rev", "all"), ops1=("mul2",), set_idx=("s1", "all"), iops=("iadd",), outs=(), setshape={}, badshape=False, fails=True)
 WORLDS["x4fail"] = (WORLDS["x4"][0], CFG_FAIL)
 WORLDS["x4goff"] = ([("x", (4,), 0, False, "goff"), ("y", (3,), 5, False)], dict(CFG_1D, views=("s1", "rev", "all", "r22"), ops1=("mul2",), outs=(("add", None),), setshape={}, badshape=False))
+# item assignment whose value is the target itself (or a member of its family) under a permuting index
+WORLDS["x4self"] = (WORLDS["x4"][0], dict(CFG_1D, views=("s1", "rev"), ops1=(), set_idx=("rev", "all", "s1"), iops=("iadd",), outs=(), setshape={}, badshape=False, self_value=True, set_all_tensor=True))
 BOUNDS = {
-    "quick": [("x4", 4), ("x23", 3), ("x23F", 3), ("x4k", 3), ("x4cls", 3), ("x4fail", 4), ("x4goff", 3)],
-    "thorough": [("x4", 4), ("x23", 4), ("x4c", 3), ("x23c", 3), ("x4sub", 5), ("x23F", 4), ("x4k", 4), ("x4cls", 4), ("x4fail", 5), ("x4goff", 4)],
+    "quick": [("x4", 4), ("x23", 3), ("x23F", 3), ("x4k", 3), ("x4cls", 3), ("x4fail", 4), ("x4goff", 3), ("x4self", 3)],
+    "thorough": [("x4", 4), ("x23", 4), ("x4c", 3), ("x23c", 3), ("x4sub", 5), ("x23F", 4), ("x4k", 4), ("x4cls", 4), ("x4fail", 5), ("x4goff", 4), ("x4self", 4)],
 }
 
 
